@@ -7,6 +7,16 @@ package verifc06
 // exactly one record per key (sequence + category value, NA when missing) whose count is the sum of
 // the input counts and whose merged_<attribute> map holds the summed weights; the total count is
 // conserved.
+//
+// Cross-worker family ("wide" jobs): the first-level workers of IUniqueSequence run side by side only
+// when at least two hash chunks reach them, and they do something on a chunk (reset of the classifier,
+// one code per record, sort, cut into classes) only when it holds more than one record. Under both
+// default schedulers of vsched the worker that took a chunk runs its whole coding loop, and takes the next
+// chunk as well: a second worker being handed a chunk while the first one is in the middle of its loop
+// costs two deviations (leave the first worker between two records; give the pending chunk to the other
+// worker instead of the preferred one). These jobs therefore use inputs with >= 2 hash chunks of >= 2
+// records (chunk count 3: the hash separates the sequences) and delay bound 2; the counter
+// jobs_with_2+_coded_chunks guards their non-vacuity with the real hash classifier.
 
 import (
 	"encoding/json"
@@ -36,16 +46,35 @@ type rec struct {
 }
 
 type param struct {
-	Recs      []rec `json:"records"`
-	Workers   int   `json:"workers"`
-	Chunks    int   `json:"chunks"`
-	Batch     int   `json:"batch"`
-	NoSingle  bool  `json:"no_singleton"`
-	Policy    int   `json:"policy"`
-	Bound     int   `json:"bound"`
-	Choices   []int `json:"choices,omitempty"`
-	WithCateg bool  `json:"with_category"`
-	Categ2    bool  `json:"two_categories,omitempty"` // -c cat -c cat2 (needs WithCateg)
+	Recs      []rec  `json:"records"`
+	Workers   int    `json:"workers"`
+	Chunks    int    `json:"chunks"`
+	Batch     int    `json:"batch"`
+	NoSingle  bool   `json:"no_singleton"`
+	Policy    int    `json:"policy"`
+	Bound     int    `json:"bound"`
+	Choices   []int  `json:"choices,omitempty"`
+	WithCateg bool   `json:"with_category"`
+	Categ2    bool   `json:"two_categories,omitempty"` // -c cat -c cat2 (needs WithCateg)
+	MaxExec   int64  `json:"max_exec,omitempty"`       // execution cap of the exploration (0: 60000)
+	Family    string `json:"family,omitempty"`         // "" = general enumeration, "cross-worker" = wide jobs
+}
+
+// codedChunks: number of hash chunks (real obiseq.HashClassifier of the tree under test) that hold more
+// than one record, i.e. the number of batches a first-level worker resets its classifier for and codes.
+func codedChunks(p param) int {
+	h := obiseq.HashClassifier(p.Chunks)
+	n := map[int]int{}
+	for _, r := range p.Recs {
+		n[h.Code(obiseq.NewBioSequence("h", []byte(r.Seq), ""))]++
+	}
+	k := 0
+	for _, c := range n {
+		if c > 1 {
+			k++
+		}
+	}
+	return k
 }
 
 func source(p param) obiiter.IBioSequence {
@@ -242,6 +271,19 @@ func TestVerifC06A(t *testing.T) {
 		x := vsched.RunOncePolicy(p.Policy, p.Choices, 30000, nil, nil, func(x *vsched.Exec) { x.Obs = body(p) })
 		msg := check(p)(x)
 		r.Eval(1)
+		if msg == "" || strings.Contains(msg, "replay divergence") {
+			// the stored choice list indexes the decision points of the exploration round that found it (the
+			// racy access sites known in that round are scheduling points too): when the plain re-execution
+			// does not follow it, the job is explored again and its first violating schedule is shown
+			cfg := vsched.Config{Name: "uniq", Preemptions: p.Bound, DelayBounding: true, Policy: p.Policy, Horizon: 30000,
+				MaxExec: max(p.MaxExec, 60000), Check: check(p)}
+			st := vsched.Explore(cfg, func(x *vsched.Exec) { x.Obs = body(p) })
+			r.Eval(st.Executions)
+			msg = ""
+			if len(st.Violations) > 0 {
+				msg = fmt.Sprintf("(found again by exploring the job, schedule %v) %s", st.Violations[0].Choices, st.Violations[0].Desc)
+			}
+		}
 		if msg != "" {
 			r.Violate("IUniqueSequence/replay", msg, p)
 		}
@@ -322,23 +364,43 @@ func TestVerifC06A(t *testing.T) {
 			}
 		}
 	}
+	// cross-worker family (see the head of the file): >= 2 hash chunks of >= 2 records each (chunk count 3
+	// separates acgt|gggg, ttgg and cccc), delay bound 2. S1: two chunks of one repeated sequence (a worker
+	// must give both records of its chunk the same code); S3: a chunk with a second sequence between the two
+	// copies; S6: three coded chunks. Category values differ between the chunks (the second-level
+	// classifiers see different values). quick: S1, 2 workers, one default scheduler, no category;
+	// thorough: both default schedulers, with a category level, 3 workers, S3 and S6.
+	s1 := []rec{{Seq: "acgt", Cat: "a", Count: 1, Tag: "x"}, {Seq: "ttgg", Cat: "b", Count: 1, Tag: "x"}, {Seq: "acgt", Cat: "a", Count: 1, Tag: "y"}, {Seq: "ttgg", Cat: "b", Count: 2, Tag: "y"}}
+	s3 := []rec{{Seq: "acgt", Cat: "a", Count: 1, Tag: "x"}, {Seq: "gggg", Cat: "a", Count: 1, Tag: "x"}, {Seq: "ttgg", Cat: "b", Count: 1, Tag: "x"}, {Seq: "acgt", Cat: "a", Count: 1, Tag: "y"}, {Seq: "ttgg", Cat: "b", Count: 2, Tag: "y"}}
+	s6 := append(append([]rec{}, s1...), rec{Seq: "cccc", Cat: "", Count: 1, Tag: "x"}, rec{Seq: "cccc", Cat: "", Count: 1, Tag: "x"})
+	wideJob := func(m []rec, w, pol int, categ bool) param {
+		return param{Recs: m, Workers: w, Chunks: 3, Batch: len(m), Policy: pol, Bound: 2, WithCateg: categ, MaxExec: 3000000, Family: "cross-worker"}
+	}
+	wide := []param{wideJob(s1, 2, 0, false)}
+	if verifkit.Thorough() {
+		// the most expensive first (they go to the shards with the lightest share of the enumeration)
+		wide = append(wide, wideJob(s1, 2, 1, true), wideJob(s6, 3, 0, false), wideJob(s1, 2, 0, true), wideJob(s1, 3, 0, false),
+			wideJob(s6, 2, 0, false), wideJob(s3, 2, 1, false), wideJob(s1, 2, 1, false), wideJob(s3, 2, 0, false))
+	}
 	r.Bound("extra_scenarios", "4 fixed multisets with two category attributes and/or already merged records (merged_tag maps) x policies; the 3 fixed collision families with chunk counts 1 and 3, batch size 1")
+	r.Bound("cross_worker_jobs", fmt.Sprintf("%d jobs with >= 2 hash chunks of >= 2 records (chunk count 3), delay bound 2: S1 = 2 chunks x 2 copies of one sequence, S3 = S1 + another sequence of the first chunk, S6 = 3 chunks x 2 copies; quick: S1 / 2 workers / default scheduler 0 / no category; thorough: + default scheduler 1, category level, 3 workers, S3, S6", len(wide)))
 	r.Bound("multisets", len(ms)+len(extra))
-	r.Bound("jobs", len(jobs))
-	r.Bound("exploration", "delay bound 1 from two default schedulers, happens-before state caching, L2 conflict sites to fixpoint")
-	for k, p := range jobs {
-		if !r.Mine(k) {
-			continue
-		}
-		if r.Expired() {
-			break
-		}
-		if k < 2 {
-			r.Sample(map[string]any{"param": p, "expected": expected(p)})
-		}
+	r.Bound("jobs", len(jobs)+len(wide))
+	r.Bound("exploration", "delay bound 1 (cross-worker jobs: 2) from two default schedulers, happens-before state caching, L2 conflict sites to fixpoint")
+	run := func(p param) {
 		r.State(fmt.Sprint(p.Recs))
+		if codedChunks(p) >= 2 && p.Workers >= 2 {
+			r.Count("jobs_with_2+_coded_chunks", 1)
+			if p.Bound >= 2 {
+				r.Count("jobs_with_2+_coded_chunks_at_delay_bound_2", 1)
+			}
+		}
+		maxExec := int64(60000)
+		if p.MaxExec > 0 {
+			maxExec = p.MaxExec
+		}
 		cfg := vsched.Config{Name: "uniq", Preemptions: p.Bound, DelayBounding: true, Policy: p.Policy, Horizon: 30000,
-			MaxExec: 60000, Expired: r.Expired, Check: check(p)}
+			MaxExec: maxExec, Expired: r.Expired, Check: check(p)}
 		st := vsched.Explore(cfg, func(x *vsched.Exec) { x.Obs = body(p) })
 		r.Eval(st.Executions)
 		r.Trace(st.Executions)
@@ -347,6 +409,10 @@ func TestVerifC06A(t *testing.T) {
 		r.Count("hb_states", st.States)
 		for o, n := range st.Outcomes {
 			r.Count("outcome_"+o, n)
+		}
+		if p.Family != "" {
+			r.Count("executions:"+p.Family, st.Executions)
+			r.Count("completed:"+p.Family, st.Outcomes["completed"])
 		}
 		for h := range st.TraceHashes {
 			r.StateH(h)
@@ -358,14 +424,53 @@ func TestVerifC06A(t *testing.T) {
 		for _, v := range st.Violations {
 			parts := strings.SplitN(v.Desc, "|", 2)
 			key := "IUniqueSequence(memory)/" + parts[0]
+			if p.Family != "" {
+				// a failure met only when several first-level workers code a chunk at the same time
+				key += "@" + p.Family
+			}
 			if seen[key] {
 				continue
 			}
 			seen[key] = true
 			q := p
 			q.Choices = v.Choices
-			r.Violate(key, fmt.Sprintf("records=%v workers=%d chunks=%d batch=%d nosingleton=%v category=%v policy=%d schedule=%v: %s", p.Recs, p.Workers, p.Chunks, p.Batch, p.NoSingle, p.WithCateg, p.Policy, v.Choices, parts[1]), q)
+			r.Violate(key, fmt.Sprintf("records=%v workers=%d chunks=%d batch=%d nosingleton=%v category=%v policy=%d delay bound=%d schedule=%v: %s", p.Recs, p.Workers, p.Chunks, p.Batch, p.NoSingle, p.WithCateg, p.Policy, p.Bound, v.Choices, parts[1]), q)
 		}
 	}
+	// the wide jobs first (a run cut by its deadline has done them). With enough shards (quick tier) every
+	// wide job has a shard of its own and the general enumeration is spread over the other shards; otherwise
+	// they share, the wide jobs starting with the shards that get the lightest part of the enumeration.
+	lightFirst := []int{8, 9, 0, 1, 12, 13, 4, 5, 14, 15, 2, 3, 10, 11, 6, 7}
+	dedicated := r.NShards >= 2*len(wide)
+	general := r.NShards
+	if dedicated {
+		general -= len(wide)
+	}
+	for j, p := range wide {
+		sh := lightFirst[j%len(lightFirst)] % r.NShards
+		if dedicated {
+			sh = r.NShards - 1 - j
+		}
+		if sh != r.Shard {
+			continue
+		}
+		if r.Expired() {
+			break
+		}
+		run(p)
+	}
+	for k, p := range jobs {
+		if k%general != r.Shard {
+			continue
+		}
+		if r.Expired() {
+			break
+		}
+		if k < 2 {
+			r.Sample(map[string]any{"param": p, "expected": expected(p)})
+		}
+		run(p)
+	}
+	r.RequireNonVacuous("jobs_with_2+_coded_chunks_at_delay_bound_2")
 	r.RequireNonVacuous("outcome_completed")
 }
